@@ -232,6 +232,17 @@ func descCallee(cl Callee) string {
 
 func descCall(c *ssa.Call, depth int) string {
 	cl := calleeOf(&c.Call)
+	// fluent setters return their receiver: `new(big.Int).SetBytes(b)` and `v.SetBytes(b); ... v`
+	// are the same value and get the same description (see descAllocAt)
+	if !c.Call.IsInvoke() && cl.Recv != "" && len(c.Call.Args) >= 1 && (strings.HasPrefix(cl.Name, "Set") || (cl.Pkg == "math/big" && !bigGetter[cl.Name])) {
+		if al, ok := c.Call.Args[0].(*ssa.Alloc); ok && types.Identical(c.Type(), al.Type()) {
+			var args []string
+			for _, x := range c.Call.Args[1:] {
+				args = append(args, descValue(x, depth+1))
+			}
+			return descValue(al, depth+1) + "<-" + cl.Name + "(" + strings.Join(args, ",") + ")"
+		}
+	}
 	var args []string
 	if c.Call.IsInvoke() {
 		args = append(args, descValue(c.Call.Value, depth+1))
@@ -368,14 +379,12 @@ func stmtEdges(fn *ssa.Function) map[string]map[edge]bool {
 		}
 		a := atomOf(iff.Cond)
 		for ei := 0; ei < 2; ei++ {
-			s := descAtom(a, ei)
-			if s == "" || s == "_" || s == "!_" {
-				continue
+			for _, s := range allEdgeStmts(a, ei) {
+				if byStmt[s] == nil {
+					byStmt[s] = map[edge]bool{}
+				}
+				byStmt[s][edge{b.Index, b.Succs[ei].Index}] = true
 			}
-			if byStmt[s] == nil {
-				byStmt[s] = map[edge]bool{}
-			}
-			byStmt[s][edge{b.Index, b.Succs[ei].Index}] = true
 		}
 	}
 	return byStmt
@@ -426,7 +435,17 @@ func holdsOnAccept(fn *ssa.Function, acc []acceptRet, byStmt map[string]map[edge
 		if !seen[a.ret.Block().Index] {
 			continue
 		}
-		if d := delegation(a); d != "" && stmts[d] {
+		delegated := false
+		ds := a.deleg
+		if ds == nil {
+			ds = delegations(a, a.kind)
+		}
+		for _, d := range ds {
+			if stmts[d] {
+				delegated = true
+			}
+		}
+		if delegated {
 			continue
 		}
 		return a.ret, deleted
@@ -451,12 +470,17 @@ func guardSignature(fn *ssa.Function, kind AcceptKind) *Signature {
 		cands[s] = true
 	}
 	for _, a := range acc {
-		if d := delegation(a); d != "" {
+		for _, d := range delegations(a, a.kind) {
 			cands[d] = true
 		}
 	}
+	phiDead := resultPhiModel(fn, acc, kind, byStmt)
+	resolveConditionals(byStmt, nil)
+	for s := range byStmt {
+		cands[s] = true
+	}
 	for s := range cands {
-		if r, _ := holdsOnAccept(fn, acc, byStmt, map[string]bool{s: true}, nil); r == nil && len(acc) > 0 {
+		if r, _ := holdsOnAccept(fn, acc, byStmt, map[string]bool{s: true}, phiDead); r == nil && len(acc) > 0 {
 			sig.Facts[s] = true
 		}
 	}
@@ -522,12 +546,21 @@ func RequireFacts(c *Ctx, p *Program, rule string, fn *ssa.Function, kind Accept
 	for s := range byStmt {
 		cands[s] = true
 	}
+	fillDelegations(acc, assume)
 	for _, a := range acc {
-		if d := delegation(a); d != "" {
+		for _, d := range a.deleg {
 			cands[d] = true
 		}
 	}
+	phiDead := resultPhiModel(fn, acc, kind, byStmt)
+	resolveConditionals(byStmt, assume)
+	for s := range byStmt {
+		cands[s] = true
+	}
 	assumed := map[edge]bool{}
+	for e := range phiDead {
+		assumed[e] = true
+	}
 	for _, pat := range assume {
 		re := mustRe(pat)
 		for s := range byStmt {
@@ -593,12 +626,21 @@ func RequireDNF(c *Ctx, p *Program, rule string, fn *ssa.Function, kind AcceptKi
 	for s := range byStmt {
 		cands[s] = true
 	}
+	fillDelegations(acc, assume)
 	for _, a := range acc {
-		if d := delegation(a); d != "" {
+		for _, d := range a.deleg {
 			cands[d] = true
 		}
 	}
+	phiDead := resultPhiModel(fn, acc, kind, byStmt)
+	resolveConditionals(byStmt, assume)
+	for s := range byStmt {
+		cands[s] = true
+	}
 	assumed := map[edge]bool{}
+	for e := range phiDead {
+		assumed[e] = true
+	}
 	for _, pat := range assume {
 		re := mustRe(pat)
 		for s := range byStmt {
